@@ -117,9 +117,13 @@ class FakeBus:
 
     def __init__(self):
         self.sent = []
+        self.format_errors = []
 
     def send(self, msg):
         self.sent.append((msg.arbitration_id, bytes(msg.data)))
+        # the frame format must be able to carry the identifier: 29 bit identifiers need the extended format
+        if bool(msg.is_extended_id) != (msg.arbitration_id > 0x7FF):
+            self.format_errors.append(f"message for id {msg.arbitration_id:#x} sent with is_extended_id={msg.is_extended_id}")
 
 
 def make_machine(rx, tx=None, psize=0, pval=0xAA, active=False):
@@ -186,6 +190,8 @@ def run_impl(rx, tx, psize, pval, frames, active):
         handed_out.extend((i, t, bytes(t)) for _, t in raw)
         sent = [[a, list(p)] for a, p in m._bus.sent] if m._bus else []
         trace.append([ts, m.cbs, sent])
+    if m._bus and m._bus.format_errors:
+        return trace, (len(frames) - 1, "flow control: " + m._bus.format_errors[0])
     # a consumer which queues the telegrams looks at them later: they must still be what was reported
     for i, t, snap in handed_out:
         if bytes(t) != snap:
